@@ -61,6 +61,198 @@ def unparse_roundtrip(fn):
     return f
 
 
+def rename_locals(fn, suffix="_rn"):
+    """alpha-rename every local variable (not parameters, not attributes, not globals) of every function in the
+    module: a behaviour-preserving edit that changes the source text of nearly every statement"""
+    import builtins
+
+    class Scope(ast.NodeTransformer):
+        def __init__(self, rename):
+            self.rename = rename
+
+        def _locals_of(self, fnode):
+            params = {a.arg for a in fnode.args.args + fnode.args.kwonlyargs + fnode.args.posonlyargs}
+            if fnode.args.vararg:
+                params.add(fnode.args.vararg.arg)
+            if fnode.args.kwarg:
+                params.add(fnode.args.kwarg.arg)
+            stored, declared = set(), set()
+
+            def walk(n, top=True):
+                for c in ast.iter_child_nodes(n):
+                    if isinstance(c, (ast.FunctionDef, ast.AsyncFunctionDef, ast.Lambda, ast.ClassDef)):
+                        if isinstance(c, (ast.FunctionDef, ast.AsyncFunctionDef, ast.ClassDef)):
+                            declared.add(c.name)
+                        continue
+                    if isinstance(c, ast.Name) and isinstance(c.ctx, (ast.Store, ast.Del)):
+                        stored.add(c.id)
+                    if isinstance(c, ast.ExceptHandler) and c.name:
+                        stored.add(c.name)
+                    if isinstance(c, (ast.Global, ast.Nonlocal)):
+                        declared.update(c.names)
+                    if isinstance(c, (ast.Import, ast.ImportFrom)):
+                        declared.update((a.asname or a.name).split(".")[0] for a in c.names)
+                    walk(c, False)
+            walk(fnode)
+            return (stored - params - declared - set(dir(builtins))), params | declared
+
+        def visit_FunctionDef(self, node):
+            loc, shadow = self._locals_of(node)
+            ren = {k: v for k, v in self.rename.items() if k not in shadow}
+            ren.update({x: x + suffix for x in loc})
+            inner = Scope(ren)
+            node.body = [inner.visit(b) for b in node.body]
+            return node
+
+        visit_AsyncFunctionDef = visit_FunctionDef
+
+        def visit_Lambda(self, node):
+            params = {a.arg for a in node.args.args}
+            inner = Scope({k: v for k, v in self.rename.items() if k not in params})
+            node.body = inner.visit(node.body)
+            return node
+
+        def visit_Name(self, node):
+            if node.id in self.rename:
+                node.id = self.rename[node.id]
+            return node
+
+        def visit_ExceptHandler(self, node):
+            if node.name and node.name in self.rename:
+                node.name = self.rename[node.name]
+            self.generic_visit(node)
+            return node
+
+    def f(src):
+        out = dict(src)
+        tree = ast.parse(src[fn])
+        tree = Scope({}).visit(tree)
+        ast.fix_missing_locations(tree)
+        out[fn] = ast.unparse(tree) + "\n"
+        return out
+    return f
+
+
+def _terminal(stmts):
+    return bool(stmts) and isinstance(stmts[-1], (ast.Return, ast.Raise, ast.Continue, ast.Break))
+
+
+def restructure_ifs(fn, how):
+    """mechanical, behaviour-preserving restructuring of every `if ... else ...` of the module:
+    how="guard":  `if c: A(ends in return/raise/continue/break) else: B`  ->  `if c: A` followed by B
+    how="invert": `if c: A else: B`  ->  `if not c: B else: A`"""
+    class T(ast.NodeTransformer):
+        def _block(self, stmts):
+            out = []
+            for st in stmts:
+                st = self.visit(st)
+                if how == "guard" and isinstance(st, ast.If) and st.orelse and _terminal(st.body):
+                    tail = st.orelse
+                    st.orelse = []
+                    out.append(st)
+                    out.extend(tail)
+                else:
+                    out.append(st)
+            return out
+
+        def generic_visit(self, node):
+            super().generic_visit(node)
+            for fld in ("body", "orelse", "finalbody"):
+                v = getattr(node, fld, None)
+                if isinstance(v, list) and v and isinstance(v[0], ast.stmt):
+                    setattr(node, fld, self._block(v))
+            return node
+
+        def visit_If(self, node):
+            self.generic_visit(node)
+            if how == "invert" and node.orelse:
+                node.test = ast.UnaryOp(op=ast.Not(), operand=node.test)
+                node.body, node.orelse = node.orelse, node.body
+            return node
+
+    def f(src):
+        out = dict(src)
+        tree = T().visit(ast.parse(src[fn]))
+        ast.fix_missing_locations(tree)
+        out[fn] = ast.unparse(tree) + "\n"
+        return out
+    return f
+
+
+def mechanical(fn, how):
+    """further mechanical behaviour-preserving rewrites of a whole module:
+    how="swapeq":   `a == b` / `a != b`  ->  `b == a` / `b != a` (builtin str / int / None operands throughout the package)
+    how="keywords": positional arguments of calls `self.m(...)` to methods of the same class passed by keyword
+    how="retinline": `x = <expr>` immediately followed by `return x`  ->  `return <expr>`
+    how="withmerge": `with A: with B: body` (nothing else in the outer body)  ->  `with A, B: body`"""
+    def f(src):
+        out = dict(src)
+        tree = ast.parse(src[fn])
+        sigs = {}
+        for c in ast.walk(tree):
+            if isinstance(c, ast.ClassDef):
+                for m in c.body:
+                    if isinstance(m, ast.FunctionDef):
+                        static = any(ast.unparse(d) == "staticmethod" for d in m.decorator_list)
+                        names = [a.arg for a in m.args.args]
+                        if not static and names:
+                            names = names[1:]
+                        if m.args.vararg is None and m.name not in sigs:
+                            sigs[m.name] = names
+                        else:
+                            sigs[m.name] = None
+
+        class T(ast.NodeTransformer):
+            def visit_Compare(self, node):
+                self.generic_visit(node)
+                if how == "swapeq" and len(node.ops) == 1 and isinstance(node.ops[0], (ast.Eq, ast.NotEq)):
+                    node.left, node.comparators = node.comparators[0], [node.left]
+                return node
+
+            def visit_Call(self, node):
+                self.generic_visit(node)
+                if how == "keywords" and isinstance(node.func, ast.Attribute) and isinstance(node.func.value, ast.Name) \
+                        and node.func.value.id == "self" and sigs.get(node.func.attr) and not any(isinstance(a, ast.Starred) for a in node.args) \
+                        and len(node.args) <= len(sigs[node.func.attr]):
+                    names = sigs[node.func.attr]
+                    node.keywords = [ast.keyword(arg=names[i], value=a) for i, a in enumerate(node.args)] + node.keywords
+                    node.args = []
+                return node
+
+            def _block(self, stmts):
+                outb = []
+                i = 0
+                while i < len(stmts):
+                    st = stmts[i]
+                    nxt = stmts[i + 1] if i + 1 < len(stmts) else None
+                    if how == "retinline" and isinstance(st, ast.Assign) and len(st.targets) == 1 and isinstance(st.targets[0], ast.Name) \
+                            and isinstance(nxt, ast.Return) and isinstance(nxt.value, ast.Name) and nxt.value.id == st.targets[0].id:
+                        outb.append(ast.Return(value=st.value))
+                        i += 2
+                        continue
+                    if how == "withmerge" and isinstance(st, ast.With) and len(st.body) == 1 and isinstance(st.body[0], ast.With):
+                        inner = st.body[0]
+                        st.items = st.items + inner.items
+                        st.body = inner.body
+                    outb.append(st)
+                    i += 1
+                return outb
+
+            def generic_visit(self, node):
+                super().generic_visit(node)
+                for fld in ("body", "orelse", "finalbody"):
+                    v = getattr(node, fld, None)
+                    if isinstance(v, list) and v and isinstance(v[0], ast.stmt):
+                        setattr(node, fld, self._block(v))
+                return node
+
+        tree = T().visit(tree)
+        ast.fix_missing_locations(tree)
+        out[fn] = ast.unparse(tree) + "\n"
+        return out
+    return f
+
+
 def chain(*fs):
     def f(src):
         for g in fs:
@@ -453,6 +645,20 @@ def sweep(prop, A, jobs=16):
     skipped = []
     generic = [(prop, None, "twin: whole package re-printed by ast.unparse (formatting / comments / line numbers change)",
                 chain(unparse_roundtrip(FHS), unparse_roundtrip(CLI)))]
+    generic.append((prop, None, "twin: every local variable of every function alpha-renamed (and the package re-printed)",
+                    chain(rename_locals(FHS), rename_locals(CLI))))
+    generic.append((prop, None, "twin: every `if A(terminal) else B` rewritten as a guard clause followed by B",
+                    chain(restructure_ifs(FHS, "guard"), restructure_ifs(CLI, "guard"))))
+    generic.append((prop, None, "twin: every `if c: A else: B` rewritten as `if not c: B else: A`",
+                    chain(restructure_ifs(FHS, "invert"), restructure_ifs(CLI, "invert"))))
+    for how, what in (("swapeq", "operands of every == / != swapped"), ("keywords", "positional arguments of every self.method(...) call passed by keyword"),
+                      ("retinline", "`x = e; return x` written as `return e`"), ("withmerge", "directly nested with-statements merged")):
+        generic.append((prop, None, f"twin: {what}", chain(mechanical(FHS, how), mechanical(CLI, how))))
+    combo = []
+    for fn_ in (FHS, CLI):
+        combo += [rename_locals(fn_), restructure_ifs(fn_, "invert"), restructure_ifs(fn_, "guard"), mechanical(fn_, "swapeq"),
+                  mechanical(fn_, "keywords"), mechanical(fn_, "retinline"), mechanical(fn_, "withmerge")]
+    generic.append((prop, None, "twin: all seven mechanical rewrites applied together", chain(*combo)))
     for i, (p, expect, name, edit) in enumerate(VARIANTS + generic):
         if p != prop:
             continue
